@@ -1,4 +1,6 @@
 fn main() {
+    // cfg used by external verification harnesses; off in every normal build
+    println!("cargo:rustc-check-cfg=cfg(fuse_backend_rs_verif)");
     if std::env::var("CARGO_CFG_TARGET_OS").unwrap_or_default() == "macos" {
         println!("cargo:rustc-link-lib=framework=DiskArbitration");
     }
